@@ -12,7 +12,8 @@ from __future__ import annotations
 import os
 
 from harness.common import ASSUME, FAIL, PASS, check, tape_harness  # noqa: F401
-from harness.frames import CodeView, FakeFrame, ListLogger, RETURN_OPS
+from engine import verdicts as _V
+from harness.frames import REPR_MSG, CodeView, FakeFrame, ListLogger, RETURN_OPS, representation_ok
 from vfix import funcs as F
 
 import monkeytype.config as MC
@@ -31,6 +32,8 @@ FUNCTIONS = [
 def gate_body(t, admit, admit2, with_filter):
     """Two DIFFERENT code objects that share file name and function name (e.g. Reader.run and
     Writer.run) with independent filter verdicts, called under one tracer in either order."""
+    if not representation_ok():
+        return _V.INCONCLUSIVE(REPR_MSG)
     logger = ListLogger()
     name = (None, "trace_types")[t.take(2)]
     func = (F.mod_func, F.gen_func)[t.take(2)]
